@@ -561,7 +561,7 @@ func (s *State) evalBuiltin(node *ast.Builtin) object.Object {
 	case token.LEN:
 		l := object.Len(val)
 		if l == -1 {
-			return s.NewError("len: not supported on " + val.Type().String())
+			return s.NewError("len: not supported on " + object.Value(val).Type().String())
 		}
 		return object.Integer{Value: int64(l)}
 	default:
@@ -616,7 +616,7 @@ func (s *State) evalIndexRangeExpression(left object.Object, leftIdx, rightIdx a
 	case object.NIL:
 		return object.NULL
 	default:
-		return s.NewError("range index operator not supported: " + left.Type().String())
+		return s.NewError("range index operator not supported: " + object.Value(left).Type().String())
 	}
 }
 
@@ -647,7 +647,7 @@ func (s *State) evalIndexExpressionIdx(left, index object.Object) object.Object 
 	case left.Type() == object.NIL:
 		return object.NULL
 	default:
-		return s.NewError("index operator not supported: " + left.Type().String() + "[" + index.Type().String() + "]")
+		return s.NewError("index operator not supported: " + object.Value(left).Type().String() + "[" + object.Value(index).Type().String() + "]")
 	}
 }
 
@@ -731,6 +731,7 @@ func (s *State) applyExtension(fn object.Extension, args []object.Object) object
 func (s *State) applyFunction(name string, fn object.Object, args []object.Object) object.Object {
 	function, ok := fn.(object.Function)
 	if !ok {
+		fn = object.Value(fn) // (the value, not the register or reference holding it: same message with and without registers.)
 		return s.NewError("not a function: " + fn.Type().String() + ":" + fn.Inspect())
 	}
 	if ep := s.rootEnv.Epoch(); ep != s.cacheEpoch { // (from the root: walking up from a deep call frame each time is quadratic.)
@@ -959,6 +960,10 @@ func ModifyRegister(register *object.Register, in ast.Node) (ast.Node, bool) {
 			register.Count++
 			return register, true
 		}
+		if in.Literal() == "eval" || in.Literal() == "load" {
+			// code evaluated in this scope at run time may name the variable: it has to be a regular one.
+			return nil, false
+		}
 	case *ast.PostfixExpression:
 		if in.Prev.Literal() == register.Literal() {
 			// not handled currently (x--)
@@ -969,20 +974,31 @@ func ModifyRegister(register *object.Register, in ast.Node) (ast.Node, bool) {
 		return nil, false
 	case *ast.InfixExpression:
 		// The name is assigned to (x = ..., x := ..., for x = ...): it may receive a non integer
-		// or be redefined, so it must stay a regular variable.
+		// or be redefined, so it must stay a regular variable. Same when it is the target of an index
+		// assignment (x[0] = ..., x.k = ...: an error either way, the same one as for a variable).
 		if t := in.Token.Type(); t == token.ASSIGN || t == token.DEFINE {
-			if r, ok := in.Left.(*object.Register); ok && r == register {
+			if isRegister(in.Left, register) || isIndexOfRegister(in.Left, register) {
 				return nil, false
 			}
 		}
 	case *ast.Builtin:
 		if in.Type() == token.DEL && len(in.Parameters) == 1 {
-			if r, ok := in.Parameters[0].(*object.Register); ok && r == register {
+			if isRegister(in.Parameters[0], register) || isIndexOfRegister(in.Parameters[0], register) {
 				return nil, false
 			}
 		}
 	}
 	return in, true
+}
+
+func isRegister(n ast.Node, register *object.Register) bool {
+	r, ok := n.(*object.Register)
+	return ok && r == register
+}
+
+func isIndexOfRegister(n ast.Node, register *object.Register) bool {
+	idx, ok := n.(*ast.IndexExpression)
+	return ok && isRegister(idx.Left, register)
 }
 
 func setupRegister(env *object.Environment, name string, value int64, body ast.Node) (object.Register, ast.Node, bool) {
